@@ -58,12 +58,12 @@ func genC05(r *Rnd, t Tier) *Case {
 			case 2, 3:
 				ops = append(ops, Op{Kind: "rl.reserve", N: k})
 			case 4, 5:
-				ops = append(ops, Op{Kind: "rl.tryreserve", N: k, Dur: pick(r, 0, slot-1, slot, slot+1, time.Duration(r.Range(0, 5))*slot, time.Duration(r.Range(0, 5))*slot-1, -1)})
+				ops = append(ops, Op{Kind: "rl.tryreserve", N: k, Dur: pick(r, 0, slot-1, slot, slot+1, time.Duration(r.Range(0, 5))*slot, time.Duration(r.Range(0, 5))*slot-1, -1, -2, -slot, -time.Duration(r.Range(2, 50))*unit)})
 			case 6:
 				if r.P(0.3) {
 					ops = append(ops, Op{Kind: "rl.acquire_nomax", N: k}) // AcquirePermits: waits as long as it takes
 				} else {
-					ops = append(ops, Op{Kind: "rl.acquire", N: k, Dur: pick(r, 0, slot, time.Duration(r.Range(0, 4))*slot, time.Duration(r.Range(0, 4))*slot+1)})
+					ops = append(ops, Op{Kind: "rl.acquire", N: k, Dur: pick(r, 0, slot, time.Duration(r.Range(0, 4))*slot, time.Duration(r.Range(0, 4))*slot+1, -2, -time.Duration(r.Range(2, 50))*unit)})
 				}
 			case 7:
 				if !concurrent {
@@ -262,8 +262,21 @@ func checkC05(c *checkCtx) {
 		m := newRlModel(p)
 		for _, op := range ops {
 			c.cov("c05.requests")
-			want := m.request(op.t, op.k, op.maxWait)
 			got := op.out
+			blockingOp := op.kind == "rl.acquire" || op.kind == "rl.acquire_nomax" || op.kind == "exec"
+			alts := m.requestAlts(op.t, op.k, op.maxWait)
+			sel := alts[0]
+			for _, a := range alts {
+				if (blockingOp && (got == -1) == (a.want == -1)) || (!blockingOp && got == a.want) {
+					sel = a
+					break
+				}
+			}
+			if len(alts) > 1 {
+				c.cov("c05.negative_max_wait_zero_wait")
+			}
+			want := sel.want
+			m = sel.st
 			switch {
 			case op.kind == "rl.acquire" || op.kind == "rl.acquire_nomax" || op.kind == "exec":
 				granted := got != -1
@@ -345,23 +358,27 @@ func stepInterval(m *rlModel, slot time.Duration, in rlIn, out time.Duration) []
 		if t < in.t0 || t > in.t1 {
 			return
 		}
-		c := m.clone()
-		want := c.request(t, in.k, in.maxWait)
-		ok := false
-		if in.blocking {
-			ok = (out == -1) == (want == -1) && (want == -1 || t+want <= in.t1)
-		} else {
-			ok = out == want
-		}
-		if !ok {
-			return
-		}
-		for _, r := range res {
-			if r.equal(c) {
-				return
+		for _, a := range m.requestAlts(t, in.k, in.maxWait) {
+			c, want := a.st, a.want
+			ok := false
+			if in.blocking {
+				ok = (out == -1) == (want == -1) && (want == -1 || t+want <= in.t1)
+			} else {
+				ok = out == want
+			}
+			if !ok {
+				continue
+			}
+			dup := false
+			for _, r := range res {
+				if r.equal(c) {
+					dup = true
+				}
+			}
+			if !dup {
+				res = append(res, c)
 			}
 		}
-		res = append(res, c)
 	}
 	for q := int64(in.t0) / int64(slot); q <= int64(in.t1)/int64(slot); q++ {
 		lo := time.Duration(q * int64(slot))
